@@ -214,15 +214,17 @@ Print Assumptions C10_wf_x_contains_wf_descr_all.
 
 (* ================================================================ round 4: the status folding of the compile loop
    (coq/Fix/CompileFold.v: asn1_compile / asn1c_compile_expr of libasn1compiler/asn1compiler.c).  An emission unit is a type
-   (own verdict of its emitter + EMBEDded components, whose result the code drops) or a parameterized type (its specializations). *)
+   (own verdict of its emitter + EMBEDded components, whose returned status the code drops and whose failure it counts) or a
+   parameterized type (its specializations). *)
 From Coq Require Import Permutation.
 From A1 Require Import Fix.CompileFold Fix.CompileFoldProofs.
 
-(* -- exit status 0 iff every unit, specialization and component can be emitted - on inputs where no EMBEDded component fails -- *)
-Theorem C10_exit_zero_iff_all_units_ok : forall us : list eunit,
-  forallb members_ok us = true -> (exit_status us = 0 <-> forallb all_ok us = true).
-Proof. exact exit_zero_iff_all_units_ok. Qed.
-Print Assumptions C10_exit_zero_iff_all_units_ok.
+(* -- exit status 0 iff every unit, specialization and component can be emitted (the full statement: the failure counter
+      of asn1c_compile_expr reaches the exit status although EMBED drops the returned one) -- *)
+Theorem C10_exit_zero_iff_all_ok : forall us : list eunit,
+  exit_status us = 0 <-> forallb all_ok us = true.
+Proof. exact exit_zero_iff_all_ok. Qed.
+Print Assumptions C10_exit_zero_iff_all_ok.
 
 (* -- ... independent of the order of the top-level expressions / modules, and of the order in which the specializations
       of a parameterized type were first used -- *)
@@ -236,31 +238,30 @@ Theorem C10_spec_loop_order_independent : forall ss ss' : list eunit,
 Proof. exact spec_loop_order_independent. Qed.
 Print Assumptions C10_spec_loop_order_independent.
 
-(* -- a non-zero exit is the FIRST failing unit's: everything before it was emitted -- *)
-Theorem C10_exit_is_first_failure : forall us : list eunit, exit_status us <> 0 ->
+(* -- a non-zero exit has a top-level expression with a failing part; when the loop over the top-level expressions itself
+      stopped, it stopped at the FIRST failing unit: everything before it was emitted -- *)
+Theorem C10_exit_nonzero_has_culprit : forall us : list eunit, exit_status us <> 0 ->
+  exists pre u post, us = pre ++ u :: post /\ all_ok u = false.
+Proof. exact exit_nonzero_has_culprit. Qed.
+Print Assumptions C10_exit_nonzero_has_culprit.
+
+Theorem C10_top_ret_is_first_failure : forall us : list eunit, top_ret us <> 0 ->
   exists pre u post, us = pre ++ u :: post /\ Forall (fun y => ret y = 0) pre /\ ret u <> 0.
-Proof. exact exit_is_first_failure. Qed.
-Print Assumptions C10_exit_is_first_failure.
+Proof. exact top_ret_is_first_failure. Qed.
+Print Assumptions C10_top_ret_is_first_failure.
 
 (* -- "rejected => diagnostic": a non-zero exit prints at least one FATAL line; and the check's oracle
-      (a FATAL `Cannot compile` line / an #error directive <=> non-zero exit) on the same domain -- *)
+      (a FATAL `Cannot compile` line / an #error directive <=> non-zero exit), now on every input -- *)
 Theorem C10_rejected_is_diagnosed : forall us : list eunit, exit_status us <> 0 -> (top_fatals us >= 1)%nat.
 Proof. exact rejected_is_diagnosed. Qed.
 Print Assumptions C10_rejected_is_diagnosed.
 
 Theorem C10_fatal_iff_nonzero_exit : forall us : list eunit,
-  forallb members_ok us = true -> (top_fatals us = O <-> exit_status us = 0).
+  top_fatals us = O <-> exit_status us = 0.
 Proof. exact fatal_iff_nonzero_exit. Qed.
 Print Assumptions C10_fatal_iff_nonzero_exit.
 
-(* -- the full statement is FALSE of the code: a failing component is diagnosed (FATAL + #error) and forgotten
-      (findings C10-instance-of-member-error-directive, C10-unsupported-useful-types-no-skeleton) -- *)
-Theorem C10_exit_zero_iff_all_ok_refuted :
-  exists us : list eunit, exit_status us = 0 /\ forallb all_ok us = false /\ (top_fatals us >= 1)%nat.
-Proof. exact exit_zero_iff_all_ok_refuted. Qed.
-Print Assumptions C10_exit_zero_iff_all_ok_refuted.
-
-(* -- the last-wins fold (seeded change C10-6) satisfies neither: it accepts a module with a failed specialization,
+(* -- the last-wins fold (seeded change C10-6) does not: it accepts a module with a failed specialization,
       and its verdict depends on the order -- *)
 Theorem C10_last_wins_refuted :
   exists us : list eunit, forallb members_ok us = true /\ exit_last us = 0 /\ forallb all_ok us = false.
